@@ -283,7 +283,13 @@ def gen_sha1(src, crypto, w):
         w(f"def {nm}DigestSize : Nat := {ds}")
         w(f"def {nm}BlockSize : Nat := {bs}")
     cls = function_body(crypto, r"class\s+md5_digets\s*:\s*public\s+message_digest\s*\{")
-    need(re.search(r"impl::md5_append\(&state_,reinterpret_cast<impl::md5_byte_t const \*>\(ptr\),size\)", cls), "md5_digets::append")
+    ab = function_body(cls, r"virtual\s+void\s+append\s*\(\s*void\s+const\s*\*\s*ptr\s*,\s*size_t\s+size\s*\)\s*\{")
+    m = need(re.fullmatch(r"\s*impl::md5_byte_t\s+const\s*\*\s*p\s*=\s*reinterpret_cast<impl::md5_byte_t const \*>\(ptr\)\s*;"
+                          r"\s*size_t\s+const\s+max_chunk\s*=\s*(?P<mc>[^;]+);"
+                          r"\s*while\s*\(\s*size\s*>\s*max_chunk\s*\)\s*\{\s*impl::md5_append\(&state_,p,max_chunk\)\s*;\s*p\s*\+=\s*max_chunk\s*;\s*size\s*-=\s*max_chunk\s*;\s*\}"
+                          r"\s*impl::md5_append\(&state_,p,size\)\s*;\s*", ab), "md5_digets::append: statement skeleton")
+    w("/-- `max_chunk` of `md5_digets::append` -/")
+    w(f"def md5MaxChunk : Nat := {w32(m.group('mc'))}")
     need(re.search(r"impl::md5_finish\(&state_,reinterpret_cast<impl::md5_byte_t \*>\(ptr\)\)\s*;\s*impl::md5_init\(&state_\)\s*;", cls), "md5_digets::readout")
     w("")
 
